@@ -9,6 +9,7 @@ import Driver.HttpCodec
 import Driver.WsStore
 import Driver.Stats
 import Driver.RawBytes
+import Driver.Conc
 import Driver.UdpNet
 
 def main (args : List String) : IO UInt32 := do
@@ -24,6 +25,7 @@ def main (args : List String) : IO UInt32 := do
   | ["wsstore"] => WsStoreDrv.main; return 0
   | ["stats"] => StatsDrv.main; return 0
   | ["rawbytes"] => RawBytesDrv.main; return 0
+  | ["conc"] => ConcDrv.main; return 0
   | ["udpnet"] => UdpNetDrv.main; return 0
   | _ =>
     IO.eprintln "usage: driver <family>   (lines on stdin)"
